@@ -186,8 +186,21 @@ func (n *AbsfsNFS) UpdateTuningOptions(fn func(*TuningOptions)) {
 		updated.Timeouts = &tCopy
 	}
 	fn(&updated)
+	normalizeTuning(&updated)
 	n.tuning.Store(&updated)
 	n.applyTuningSideEffects(old, &updated)
+}
+
+// normalizeTuning gives zero, negative and nil tuning fields the defaults they
+// get at construction, so that a runtime update can never put a non-positive
+// transfer size, cache size, worker count or timeout in force.
+func normalizeTuning(t *TuningOptions) {
+	eo := exportOptionsFromSnapshots(t, &PolicyOptions{})
+	eo.hasExplicitTCPSettings = true
+	eo.applyDefaults()
+	log := t.Log
+	*t = *tuningFromExportOptions(&eo)
+	t.Log = log
 }
 
 // UpdatePolicyOptions swaps policy using drain-and-swap.
